@@ -581,12 +581,28 @@ def sandwich(tier="quick", start_id=0):
     tri = [("ld/st/nofast", warm + ld, warm2 + st, "nofast", 26, 44, 12, 14), ("ld/st", warm + ld, warm2 + st, "default", 24, 44, 12, 14),
            ("cas/aba", warm + cas, aba, "default", 44, 70, 18, 18), ("rcu/aba", warm + rcu, aba, "default", 40, 70, 12, 18),
            ("cache/st3", cache_a, st3, "default", 44, 100, 14, 12)]
+    if tier == "quick":
+        tri = tri[:-1]          # covered by the until:cache-window schedules in the quick tier
     for name, a, b, strat, ka, kb, la, lb in tri:
         p = prog(a, b, strat)
         for k1 in range(la, ka):
             for k2 in range(lb, kb):
                 for k3 in (range(1, 4) if tier == "quick" else range(1, 9)):
                     jobs.append({"fam": "sandwich3:" + name, "prog": p,
+                                 "sched": {"kind": "segs", "segs": [[1, k1], [2, k2], [1, k3], [2, 9999], [1, 9999]]}})
+    # two containers sharing a reader's node (C12): the reader loads from one container and then from the other (fallback
+    # path), a writer of one of them is stopped at every point of its walk: R k1 | W k2 | R k3 | W completes | R completes
+    for order in ((1, 0, 1), (0, 1, 0), (1, 0, 0), (0, 1, 1)):      # (first load, second load, container written)
+        p2 = {"threads": [[{"op": "new", "c": 0, "v": new()}, {"op": "new", "c": 1, "v": new()}],
+                          [{"op": "wait", "t": 0}, {"op": "load", "c": order[0], "g": 16}, {"op": "deref_g", "g": 16}, {"op": "drop_g", "g": 16},
+                           {"op": "load", "c": order[1], "g": 17}, {"op": "deref_g", "g": 17}, {"op": "drop_g", "g": 17}],
+                          [{"op": "wait", "t": 0}] + warm2 + [{"op": "store", "c": order[2], "v": new()}]],
+              "strategy": "nofast", "reuse": "never"}
+        for k1 in (range(6, 18) if tier == "quick" else range(2, 30)):
+            for k2 in (range(14, 44) if tier == "quick" else range(10, 50)):
+                jobs.append({"fam": "sandwich:2c", "prog": p2, "sched": {"kind": "segs", "segs": [[1, k1], [2, k2], [1, 9999], [2, 9999]]}})
+                for k3 in ((3, 7, 10, 11) if tier == "quick" else range(1, 14)):
+                    jobs.append({"fam": "sandwich3:2c", "prog": p2,
                                  "sched": {"kind": "segs", "segs": [[1, k1], [2, k2], [1, k3], [2, 9999], [1, 9999]]}})
     # Cache::load: a store lands at every point inside the load (between the "unchanged?" check and the reload),
     # another one afterwards reuses the freed address (A-B-A on the address, C16)
